@@ -26,7 +26,10 @@ def show(s):
 out = {'pairs': [], 'error': None}
 before = os.getcwd()
 try:
+    out['cwd_during'] = []
     for a, b in changed_notebooks(ref(job['base']), ref(job['remote']), job.get('paths') or None):
+        # the caller's directory while it consumes the (lazy) result
+        out['cwd_during'].append(os.getcwd())
         out['pairs'].append([show(a), show(b)])
 except Exception as e:
     out['error'] = '%s: %s' % (type(e).__name__, str(e)[:300])
